@@ -120,10 +120,24 @@ func c05Exec(out *core.Out, st *Stream, exp []Ev, ends []int, cut, kind int, ex 
 	} else {
 		chunks = append(chunks, xport.Chunk{Err: ferr})
 	}
+	// A transient fault (error, timeout): half of the executions let the
+	// transport go on delivering the rest of the stream afterwards, which is
+	// what a deadline that expired while the peer was slow looks like. The
+	// reader must stay failed all the same.
+	resumes := kind >= 2 && r.Bool()
+	if resumes {
+		chunks = append(chunks, xport.Rechunk(st.Bytes[cut:], xport.ChunkRandom, r)...)
+	}
 	nc := xport.New(chunks)
 	nc.EndErr = ferr
+	if resumes {
+		nc.EndErr = io.EOF
+	}
 	c := ws.VerifNewConn(nc, ex.Server, ex.RB, 256, nil, nil, ex.Comp)
 	out.Count("faults_injected", 1)
+	if resumes {
+		out.Count("faults_after_which_transport_resumes", 1)
+	}
 	upper, lower := 0, 0
 	for _, e := range ends {
 		if e <= cut {
@@ -134,7 +148,10 @@ func c05Exec(out *core.Out, st *Stream, exp []Ev, ends []int, cut, kind int, ex 
 		}
 	}
 	fail := func(sig, what string) bool {
-		out.Violate("C05:"+sig, what, map[string]interface{}{"exec": ex, "cut": cut, "fault": faultNames[kind], "stream": st.Summary(), "bytes": core.Trunc(st.Bytes, 900), "lower": lower, "upper": upper, "message_ends": ends})
+		if resumes {
+			what += " (the transport went on delivering after the fault)"
+		}
+		out.Violate("C05:"+sig, what, map[string]interface{}{"exec": ex, "cut": cut, "fault": faultNames[kind], "transport_resumes_after_fault": resumes, "stream": st.Summary(), "bytes": core.Trunc(st.Bytes, 900), "lower": lower, "upper": upper, "message_ends": ends})
 		return false
 	}
 	j := 0
